@@ -45,6 +45,11 @@ def G(name):
     return ("global", name)
 
 
+def IT(base, k):
+    """k-th element of an unpacked value (tuple result of a call, ...)."""
+    return canon_item(base, k)
+
+
 def phi(alts):
     flat = set()
     for a in alts:
@@ -334,6 +339,12 @@ def canon_item(base, k):
             return ("tuple", (kv[0], kv[1]))
     if base[0] == "phi":
         return phi(canon_item(a, k) for a in base[1])
+    if base[0] == "gphi":
+        return ("gphi", frozenset((lits, canon_item(a, k)) for lits, a in base[1]))
+    if base[0] == "ifexp":
+        return ("ifexp", base[1], canon_item(base[2], k), canon_item(base[3], k))
+    if isinstance(k, int):
+        return canon_sub(base, ("const", k))
     return ("item", base, k)
 
 
@@ -530,7 +541,7 @@ class TermBuilder:
         """('gphi', frozenset{(literals, term)}): alternatives of a multiply-defined name keyed by the path
         condition of the defining statement (common literals removed), so that correlated choices
         (x_idx/y_idx under swap_axis) stay distinguishable."""
-        if self._pc_busy or any(d.kind not in ("assign", "unpack") for d in defs):
+        if self._pc_busy or any(d.kind not in ("assign", "unpack", "param") for d in defs):
             return None
         from .guards import PathConditions
         if self._pcs is None:
@@ -768,7 +779,11 @@ class TermBuilder:
             tag = "and" if isinstance(e.op, ast.And) else "or"
             return (tag, tuple(T(v) for v in e.values))
         if isinstance(e, ast.IfExp):
-            return ("ifexp", T(e.test), T(e.body), T(e.orelse))
+            tt, ta, tb = T(e.test), T(e.body), T(e.orelse)
+            if self.guarded:
+                from .guards import literals as _lits
+                return ("gphi", frozenset({(tuple(_lits(tt, True)), ta), (tuple(_lits(tt, False)), tb)}))
+            return ("ifexp", tt, ta, tb)
         if isinstance(e, (ast.Tuple, ast.List, ast.Set)):
             tag = {ast.Tuple: "tuple", ast.List: "list", ast.Set: "set"}[type(e)]
             items = []
